@@ -100,6 +100,23 @@ def check(rec):
             alive = [c for c in ev[6] if not c[2]]
             if alive:
                 bad("child-not-done", "scope %s left while %r not done" % (ev[5], alive))
+    # an outside activity awaiting the scope resumes when its body is over (any way)
+    for ev in rec.trace:
+        if ev[4] == "await_scope+" and ev[3] == "watcher":
+            over = next((e for e in rec.trace if e[4] in ("scope.body-", "scope.body!")
+                         and e[5] == ev[5]), None)
+            if over is None or over[0] < ev[0] or "watcher" in faulted:
+                continue
+            resumed = next((e for e in rec.trace if e[4] == "await_scope-" and e[3] == "watcher"),
+                           None)
+            if rec.outcome[0] == "abort":
+                continue
+            if resumed is None:
+                bad("await-scope-never-resumed", "watcher awaits scope %s whose body ended at "
+                    "t=%r (%s) but was never resumed" % (ev[5], over[2], over[4]))
+            elif resumed[2] != over[2]:
+                bad("await-scope-late", "scope %s body ended at t=%r, its awaiter resumed at t=%r"
+                    % (ev[5], over[2], resumed[2]))
     # normal exits are complete
     for ev in exits:
         label = ev[5]
